@@ -317,6 +317,8 @@ def eq(a, b):
         return TRUE
     if is_lit(a) and is_lit(b):
         return TRUE if a.args[0] == b.args[0] else FALSE
+    if a.op == "felem" and b.op == "felem" and a.args[0] == b.args[0]:
+        return TRUE if a.args[1] == b.args[1] else FALSE      # canonical representatives of one field
     if a.op == "variant" and b.op == "variant":
         if a.args[0] != b.args[0]:
             return FALSE
